@@ -166,6 +166,20 @@ def _hand() -> dict[str, dict[str, Any]]:
                 H[f"param_{an}_{pn}_jvp"] = {"fn": (lambda mk: lambda x: jax.jvp(mk, (x,), (jnp.ones_like(x) * 0.5,))[1])(mk), "sig": X}
             if pn == "np32":  # (a jax.Array as a static parameter is unhashable under vmap: JAX itself refuses it, loudly)
                 H[f"param_{an}_{pn}_vmap"] = {"fn": (lambda mk: lambda x: jax.vmap(lambda r: mk(r[None, :])[0])(x))(mk), "sig": X}
+    # every activation substitute carries a hand-written differentiation rule: derivative vs JAX's own
+    unary_acts = {
+        "gelu_tanh": lambda v: jax.nn.gelu(v), "gelu_tanh_explicit": lambda v: jax.nn.gelu(v, approximate=True), "gelu_erf": lambda v: jax.nn.gelu(v, approximate=False),
+        "silu": jax.nn.silu, "softplus": jax.nn.softplus, "sigmoid": jax.nn.sigmoid, "tanh": jnp.tanh, "elu": jax.nn.elu, "selu": jax.nn.selu, "celu": jax.nn.celu,
+        "leaky_relu": jax.nn.leaky_relu, "relu6": lambda v: jax.nn.relu6(v * 3.0), "hard_tanh": lambda v: jax.nn.hard_tanh(v * 1.3), "hard_sigmoid": jax.nn.hard_sigmoid,
+        "hard_swish": jax.nn.hard_swish, "mish": jax.nn.mish, "soft_sign": jax.nn.soft_sign, "log_sigmoid": jax.nn.log_sigmoid, "softmax": lambda v: jax.nn.softmax(v, axis=1),
+        "log_softmax": lambda v: jax.nn.log_softmax(v, axis=0), "logsumexp": lambda v: jax.nn.logsumexp(v, axis=1), "standardize": lambda v: jax.nn.standardize(v, axis=1), "glu": lambda v: jax.nn.glu(v, axis=1),
+        "erf": jax.scipy.special.erf, "expm1_log1p": lambda v: jnp.expm1(v) + jnp.log1p(jnp.abs(v)), "sin_cos": lambda v: jnp.sin(v) * jnp.cos(v * 2.0), "sqrt_abs": lambda v: jnp.sqrt(jnp.abs(v) + 0.5),
+        "clip": lambda v: jnp.clip(v, -0.7, 0.9), "abs_sign": lambda v: jnp.abs(v) * 1.5 + jnp.sign(v), "square_cube": lambda v: jnp.square(v) + v ** 3, "reciprocal": lambda v: 1.0 / (jnp.abs(v) + 0.5),
+    }
+    for an, af in unary_acts.items():
+        H[f"deriv_{an}_grad"] = {"fn": jax.grad((lambda af: lambda x: jnp.sum(af(x * 1.5) * jnp.cos(x)))(af)), "sig": X}
+        H[f"deriv_{an}_jvp"] = {"fn": (lambda af: lambda x: jax.jvp(lambda v: af(v * 1.5), (x,), (jnp.ones_like(x) * 0.5,))[1])(af), "sig": X}
+        H[f"deriv_{an}_vjp_of_jit"] = {"fn": (lambda af: lambda x: jax.vjp(jax.jit(lambda v: af(v * 1.5) * 2.0), x)[1](jnp.ones_like(af(x * 1.5)) * 0.5)[0])(af), "sig": X}
     return H
 
 
